@@ -129,7 +129,14 @@ func parseFuzzCorpus(p string) []byte {
 var e1SeedCache struct {
 	box, file []e1Seed
 	done      bool
+	// media testdata files that the decoder rejects and constructed instances that do not encode: their
+	// neighbourhoods are missing from the search (reported as a cap unless listed below)
+	undecodable, unencodable []string
 }
+
+// e1KnownUndecodable: media testdata files that do not decode as a whole file on the pinned tree (segments
+// without init content that the file decoder rejects, deliberately broken test inputs).
+var e1KnownUndecodable = map[string]bool{}
 
 // e1Seeds harvests all seeds (deterministic order).
 func e1Seeds() (box []e1Seed, file []e1Seed) {
@@ -168,10 +175,14 @@ func e1Seeds() (box []e1Seed, file []e1Seed) {
 			continue
 		}
 		f, ok := safeDecodeFileSR(data)
+		rel := strings.TrimPrefix(p, repoRoot()+"/")
 		if !ok {
+			switch filepath.Ext(p) {
+			case ".mp4", ".m4s", ".cmfv", ".cmfa", ".cmft", ".isma", ".ismv", ".ismt", ".dash", ".mov":
+				e1SeedCache.undecodable = append(e1SeedCache.undecodable, rel)
+			}
 			continue
 		}
-		rel := strings.TrimPrefix(p, repoRoot()+"/")
 		for _, ch := range f.Children {
 			walk(rel, ch, 0)
 		}
@@ -193,6 +204,8 @@ func e1Seeds() (box []e1Seed, file []e1Seed) {
 	for _, s := range e1Constructed() {
 		if enc, ok := safeEncode(s.b); ok {
 			addBox("constructed/"+s.b.Type(), s.b.Type(), enc)
+		} else {
+			e1SeedCache.unencodable = append(e1SeedCache.unencodable, s.b.Type())
 		}
 	}
 	// S3: tiny generated files (progressive and fragmented, incl. encrypted-looking layouts come from C06 later)
@@ -205,8 +218,86 @@ func e1Seeds() (box []e1Seed, file []e1Seed) {
 		ff := gen.BuildFrag(sp)
 		file = append(file, e1Seed{Name: "gen/frag" + strconv.Itoa(i), Type: "file", Bytes: ff.All()})
 	}
+	// S4: small encrypted files (library-encrypted by the C06 builder) and variants with the sample-group and
+	// auxiliary-information shapes that ParseReadSenc branches on
+	for _, es := range e1EncryptedFileSeeds() {
+		file = append(file, es)
+	}
 	e1SeedCache.box, e1SeedCache.file, e1SeedCache.done = box, file, true
 	return box, file
+}
+
+// e1EncryptedFileSeeds builds init+segment files with protection signalling through the library itself.
+func e1EncryptedFileSeeds() []e1Seed {
+	var out []e1Seed
+	frags := [][][]c06Nal{{{{VCL: true, Size: 130}, {VCL: false, Size: 5}}, {{VCL: true, Size: 20, Var: 1}}}}
+	for _, v := range []struct{ codec, scheme string }{{"avc", "cenc"}, {"avc", "cbcs"}, {"aac", "cenc"}, {"aac", "cbcs"}} {
+		cs := &c06Case{Codec: v.codec, Scheme: v.scheme, IV: c06IVs[1], Key: c06Keys[0], Frags: frags}
+		f, ok := c06Build(cs)
+		if !ok {
+			continue
+		}
+		enc, err := c06Encrypt(f.All(), cs)
+		if err != nil {
+			continue
+		}
+		name := "gen/enc-" + v.codec + "-" + v.scheme
+		out = append(out, e1Seed{Name: name, Type: "file", Bytes: enc})
+		if v.codec != "avc" {
+			continue
+		}
+		// variants edited through the library API and re-encoded
+		variant := func(suffix string, edit func(traf *mp4.TrafBox)) {
+			mf, err := mp4.DecodeFile(bytes.NewReader(enc))
+			if err != nil || len(mf.Segments) == 0 || len(mf.Segments[0].Fragments) == 0 {
+				return
+			}
+			traf := mf.Segments[0].Fragments[0].Moof.Traf
+			edit(traf)
+			var w bytes.Buffer
+			mf.FragEncMode = mp4.EncModeBoxTree
+			if err := mf.Encode(&w); err == nil {
+				out = append(out, e1Seed{Name: name + suffix, Type: "file", Bytes: w.Bytes()})
+			}
+		}
+		kid, _ := mp4.NewUUIDFromString("11112222333344445555666677778888")
+		seig := func() *mp4.SeigSampleGroupEntry {
+			return &mp4.SeigSampleGroupEntry{IsProtected: 1, PerSampleIVSize: 16, KID: kid}
+		}
+		addGroups := func(traf *mp4.TrafBox, idx uint32, entries []mp4.SampleGroupEntry, counts []uint32) {
+			ids := make([]uint32, len(counts))
+			for i := range ids {
+				ids[i] = idx
+			}
+			_ = traf.AddChild(&mp4.SbgpBox{GroupingType: "seig", SampleCounts: counts, GroupDescriptionIndices: ids})
+			_ = traf.AddChild(&mp4.SgpdBox{Version: 1, GroupingType: "seig", DefaultLength: 20, SampleGroupEntries: entries})
+		}
+		variant("+seig group", func(t *mp4.TrafBox) { addGroups(t, 65537, []mp4.SampleGroupEntry{seig()}, []uint32{2}) })
+		variant("+seig group, sgpd without entries", func(t *mp4.TrafBox) { addGroups(t, 65537, nil, []uint32{2}) })
+		variant("+seig group, second entry referenced", func(t *mp4.TrafBox) { addGroups(t, 65538, []mp4.SampleGroupEntry{seig()}, []uint32{2}) })
+		variant("+seig group, two sbgp entries", func(t *mp4.TrafBox) { addGroups(t, 65537, []mp4.SampleGroupEntry{seig(), seig()}, []uint32{1, 1}) })
+		variant("+seig group, global index", func(t *mp4.TrafBox) { addGroups(t, 1, []mp4.SampleGroupEntry{seig()}, []uint32{2}) })
+		variant(", saio without offsets", func(t *mp4.TrafBox) {
+			if t.Saio != nil {
+				t.Saio.Offset = nil
+			}
+		})
+		variant(", saiz without sizes", func(t *mp4.TrafBox) {
+			if t.Saiz != nil {
+				t.Saiz.SampleInfo, t.Saiz.SampleCount, t.Saiz.DefaultSampleInfoSize = nil, 0, 0
+			}
+		})
+		variant(", no saio/saiz", func(t *mp4.TrafBox) {
+			var keep []mp4.Box
+			for _, ch := range t.Children {
+				if ch.Type() != "saio" && ch.Type() != "saiz" {
+					keep = append(keep, ch)
+				}
+			}
+			t.Children, t.Saio, t.Saiz = keep, nil, nil
+		})
+	}
+	return out
 }
 
 func e1TinyProgSpecs() []*gen.ProgSpec {
